@@ -157,6 +157,24 @@ func runC11(c *Ctx) {
 				}
 			}
 			r.Check("C11.program-level", "view.summary/"+want, root.Pos(sum.Pos()), ok, "viewer must declare the whole set excluded when "+want+" fails: "+detail+"; calls found: "+sigList(calls))
+			// … whenever it fails: the test is reached on every path on which the earlier predicates held,
+			// not only for some values of the metadata
+			for _, a := range acs {
+				extra := ""
+				for _, f := range factsAt(a.Call) {
+					isApproval := false
+					for _, b := range calls {
+						if f.Cond == ssa.Value(b.Call) && f.Pol {
+							isApproval = true
+						}
+					}
+					if !isApproval {
+						extra = fmt.Sprintf("%s is %v", shortDesc(describe(f.Cond)), f.Pol)
+					}
+				}
+				r.Check("C11.program-level", "view.summary/"+want+" is tested unconditionally", root.Pos(a.Call.Pos()), extra == "",
+					"uploader and server apply "+want+" to every data set; the viewer tests it only when "+extra)
+			}
 		}
 		// counter / stack level: a false predicate appends the name to the excluded list
 		for _, want := range []string{"HasCounter(Program,key)", "HasStack(Program,cutnl(key))"} {
